@@ -431,6 +431,94 @@ fn check_pool_independence(n: usize, dim: usize, pools: &[usize], reps: usize) -
     out
 }
 
+/// A run does not depend on what the executing thread ran before: X alone on a fresh thread = X after Y on a
+/// fresh thread, for runs of the same template on other parameter sets / instances (and after X itself).
+fn check_thread_history(specs: &[Box<dyn AnySpec>], ix: usize, iy: usize, seed: u64) -> Option<(String, String)> {
+    let o = RunOpts { ev: EvKind::Sequential, rng: RngKind::Real(seed), cloned: false };
+    let (x, y) = (&specs[ix], &specs[iy]);
+    let alone = std::thread::scope(|s| s.spawn(|| x.run_with(Flags::default(), &o)).join()).ok()?;
+    let after = std::thread::scope(|s| {
+        s.spawn(|| {
+            let _ = y.run_with(Flags::default(), &o);
+            x.run_with(Flags::default(), &o)
+        })
+        .join()
+    })
+    .ok()?;
+    if alone.digest != after.digest || alone.result.is_ok() != after.result.is_ok() {
+        return Some((
+            format!("C08 template={} result-depends-on-earlier-run-on-the-thread", x.template()),
+            format!("{} with seed {}: on a fresh thread the run ends in {:?} / {}; on a fresh thread that first ran {} it ends in {:?} / {}", x.name(), seed, alone.result, alone.digest.chars().take(300).collect::<String>(), y.name(), after.result, after.digest.chars().take(300).collect::<String>()),
+        ));
+    }
+    None
+}
+
+/// Components on instances large enough for a data-parallel implementation to split the work: same seed,
+/// same result, outside a pool and inside pools of different sizes.
+fn check_large_components(pools: &[usize], reps: usize) -> Vec<(String, String)> {
+    use crate::subject::problems::{BinP, TspP};
+    use mahf::components::{boundary, initialization, mutation, recombination, replacement, selection};
+    fn digest<P: mahf::Problem>(st: &State<P>) -> String
+    where
+        P::Encoding: std::fmt::Debug,
+    {
+        let pops = st.populations();
+        format!("{:?}", (0..pops.len()).map(|d| pops.peek(d).iter().map(|i| format!("{:?}", i.solution())).collect::<Vec<_>>()).collect::<Vec<_>>())
+    }
+    let mut cases: Vec<(&'static str, Box<dyn Fn() -> Result<u64, String> + Sync>)> = vec![];
+    macro_rules! case {
+        ($name:expr, $P:ty, $problem:expr, $pop:expr, $comps:expr) => {
+            cases.push(($name, Box::new(|| {
+                let problem: $P = $problem;
+                let mut st = crate::subject::prep::state_with::<$P>(vec![$pop]);
+                st.insert(Random::new(4711));
+                let comps: Vec<Box<dyn mahf::Component<$P>>> = $comps;
+                for c in &comps {
+                    crate::subject::prep::run_component(c.as_ref(), &problem, &mut st).map_err(|e| format!("{:#}", e))?;
+                }
+                Ok(fnv(&digest(&st)))
+            })));
+        };
+    }
+    fn realp() -> RealP {
+        RealP::new(20, -1.0, 2.0, FKind::Sphere, Instr::new())
+    }
+    fn realpop() -> Vec<mahf::Individual<RealP>> {
+        let mut r = Random::new(99);
+        (0..300).map(|k| mahf::Individual::new((0..20).map(|_| (r.next_u64() >> 11) as f64 / (1u64 << 53) as f64 * 3.0 - 1.0).collect(), crate::subject::problems::so(k as f64))).collect()
+    }
+    case!("RandomBitstring(64 x 64)", BinP, BinP { dim: 64, instr: Instr::new() }, vec![], vec![initialization::RandomBitstring::new(64, 0.5)]);
+    case!("RandomBitstring(300 x 100)", BinP, BinP { dim: 100, instr: Instr::new() }, vec![], vec![initialization::RandomBitstring::new_uniform(300)]);
+    case!("RandomSpread(300 x 20)", RealP, realp(), vec![], vec![initialization::RandomSpread::new(300)]);
+    case!("RandomPermutation(64 x 64)", TspP, TspP::line(&vec![1.0; 63], Instr::new()), vec![], vec![initialization::RandomPermutation::new(64)]);
+    case!("Tournament+UniformCrossover+NormalMutation+Saturation (300 x 20)", RealP, realp(), realpop(), vec![selection::Tournament::new(300, 2), recombination::UniformCrossover::new_insert_both(0.8), mutation::NormalMutation::new(0.3, 0.5), boundary::Saturation::new()]);
+    case!("RouletteWheel+ArithmeticCrossover+UniformMutation+Mirror (300 x 20)", RealP, realp(), realpop(), vec![selection::RouletteWheel::new(300, 0.1), recombination::ArithmeticCrossover::new_insert_single(0.7), mutation::UniformMutation::new(0.5, 1.0), boundary::Mirror::new()]);
+    case!("All+PartialRandomSpread+Toroidal then MuPlusLambda(300) (300 x 20)", RealP, realp(), realpop(), vec![selection::All::new(), mutation::PartialRandomSpread::new(0.5), boundary::Toroidal::new(), replacement::RandomReplacement::new(300)]);
+    let mut out = vec![];
+    for (name, run) in &cases {
+        let base = catch(|| run()).unwrap_or_else(|p| Err(format!("panic: {}", p)));
+        if let Err(e) = &base {
+            out.push((format!("C08 large-instance component fails"), format!("{}: {}", name, e)));
+            continue;
+        }
+        'pools: for &k in pools {
+            let pool = rayon::ThreadPoolBuilder::new().num_threads(k).build().unwrap();
+            for _ in 0..reps {
+                let got = pool.install(|| catch(|| run()).unwrap_or_else(|p| Err(format!("panic: {}", p))));
+                if got != base {
+                    out.push((
+                        "C08 large-instance thread-pool-changes-result".to_string(),
+                        format!("{} with Random::new(4711): digest {:?} outside any pool, {:?} inside a pool of {} threads", name, base, got, k),
+                    ));
+                    break 'pools;
+                }
+            }
+        }
+    }
+    out
+}
+
 pub fn run(rep: &mut Report) {
     let thorough = rep.tier == Tier::Thorough;
     rep.alpha("generator algebra: seeds 0..255 (quick) / 0..4095 (thorough): equal seed => equal first 16 words; all pairs of different seeds differ; the first 3 children of two parents with the same seed are equal and use the parent's backend; children of different parents differ; with_rng backends keep name and seed");
@@ -569,7 +657,37 @@ pub fn run(rep: &mut Report) {
             part.violate(s, d, json!({"kind": "measure", "n": n, "dim": dim, "pools": pools, "reps": reps}));
         }
     }
+    part.transitions += (7 * pools.len() * 2) as u64;
+    part.traces += 7;
+    part.states += 7;
+    for (s, d) in check_large_components(&pools, 2) {
+        part.violate(s, d, json!({"kind": "large", "pools": pools}));
+    }
     part.sample(json!({"measure": "DistanceToAveragePointDiversity", "individuals": 1000, "pools": [1, 2, 8]}));
+    rep.push(part);
+
+    // independence of what the thread ran before
+    let mut part = Part::new("templates.thread-history");
+    let specs = all_specs(3, thorough);
+    let mut pairs: Vec<(usize, usize)> = vec![];
+    for ix in 0..specs.len() {
+        let same: Vec<usize> = (0..specs.len()).filter(|iy| specs[*iy].template() == specs[ix].template()).collect();
+        for iy in same.into_iter().take(if thorough { 8 } else { 4 }) {
+            pairs.push((ix, iy));
+        }
+    }
+    part.bound("ordered_pairs_of_runs", pairs.len() as u64);
+    let res: Vec<Option<(String, String)>> = pairs.par_iter().map(|(ix, iy)| check_thread_history(&specs, *ix, *iy, seed)).collect();
+    for ((ix, iy), r) in pairs.iter().zip(res) {
+        part.transitions += 3;
+        part.traces += 1;
+        part.states += 1;
+        part.outcome(specs[*ix].template().to_string());
+        if let Some((s, d)) = r {
+            part.violate(s, d, json!({"kind": "history", "x": specs[*ix].name(), "y": specs[*iy].name(), "seed": seed, "thorough": thorough}));
+        }
+    }
+    part.sample(json!({"x": "ant_system on 4 cities", "y": "ant_system on another 4-city instance", "compare": "x alone on a fresh thread = x after y on a fresh thread"}));
     rep.push(part);
 
     // par_experiment
@@ -661,6 +779,24 @@ pub fn replay(case: &Value) -> Result<Vec<(String, String)>, String> {
                 }
             }
             Ok(vec![])
+        }
+        "large" => {
+            let pools: Vec<usize> = case["pools"].as_array().map(|a| a.iter().map(|x| x.as_u64().unwrap() as usize).collect()).unwrap_or_default();
+            for _ in 0..5 {
+                let v = check_large_components(&pools, 2);
+                if !v.is_empty() {
+                    return Ok(v);
+                }
+            }
+            Ok(vec![])
+        }
+        "history" => {
+            let specs = all_specs(3, thorough);
+            let find = |n: &str| specs.iter().position(|s| s.name() == n);
+            match (find(case["x"].as_str().unwrap_or("")), find(case["y"].as_str().unwrap_or(""))) {
+                (Some(ix), Some(iy)) => Ok(check_thread_history(&specs, ix, iy, seed).into_iter().collect()),
+                _ => Err("spec not found".into()),
+            }
         }
         "measure" => {
             let pools: Vec<usize> = case["pools"].as_array().map(|a| a.iter().map(|x| x.as_u64().unwrap() as usize).collect()).unwrap_or_default();
